@@ -242,4 +242,21 @@ U9 = Universe(
     sources=[_m("a")],
 )
 
-ALL = {u.name.split("-")[0]: u for u in (U1, U2, U3, U4, U4b, U5, U6, U7, U8, U9)}
+# U10 rename / swap: atomic multi-file edits (rename b -> b2 with the importer updated; swap contents).
+U10 = Universe(
+    name="U10-rename",
+    files={
+        "tmp/a.py": ["import b\nx: int = b.f()\n", "import b2\nx: int = b2.f()\n", "import b, b2\nx: int = b.f()\ny: str = b2.f()\n"],
+        "tmp/b.py": ["def f() -> int:\n    return 0\n", None, "def f() -> str:\n    return ''\n"],
+        "tmp/b2.py": [None, "def f() -> int:\n    return 0\n", "def f() -> str:\n    return ''\n"],
+    },
+    sources=[_m("a")],
+    multi={
+        "rename b->b2": {"tmp/a.py": 1, "tmp/b.py": 1, "tmp/b2.py": 1},
+        "rename b2->b": {"tmp/a.py": 0, "tmp/b.py": 0, "tmp/b2.py": 0},
+        "swap b<->b2 contents": {"tmp/b.py": 2, "tmp/b2.py": 1},
+        "both str": {"tmp/a.py": 2, "tmp/b.py": 2, "tmp/b2.py": 2},
+    },
+)
+
+ALL = {u.name.split("-")[0]: u for u in (U10, U1, U2, U3, U4, U4b, U5, U6, U7, U8, U9)}
